@@ -224,5 +224,13 @@ func (iter *UnsavedFastIterator) Close() error {
 
 // Error implements store.Iterator
 func (iter *UnsavedFastIterator) Error() error {
-	return iter.err
+	if iter.err != nil {
+		return iter.err
+	}
+	// a failure of the iterator over the persisted fast nodes ends its part of the
+	// merge early: it is an error of the merged iteration as well
+	if iter.fastIterator != nil {
+		return iter.fastIterator.Error()
+	}
+	return nil
 }
